@@ -172,6 +172,20 @@ func genStart(t *rapid.T) uint64 {
 
 // genHistory draws from the whole quantified domain: any contents, empty heights, a head that
 // may lie behind the scan, retrieval error scripts, any limits, restarts anywhere.
+// addHuge replaces, in one scenario out of 150, one transaction of a small height by a blob above the
+// sequencer's default batch limit (1.5 MB): it fits only a request that asks for more.
+func addHuge(t *rapid.T, sc *Scenario) {
+	if rapid.IntRange(0, 149).Draw(t, "hashuge") != 0 {
+		return
+	}
+	for i := range sc.Heights {
+		if n := len(sc.Heights[i].Txs); n > 0 && n <= 5 {
+			sc.Heights[i].Txs[n/2] = Tx{Size: int(based.DefaultMaxBlobSize) + 1 + rapid.IntRange(0, 200_000).Draw(t, "hugeextra")}
+			return
+		}
+	}
+}
+
 func genHistory(t *rapid.T) Scenario {
 	var sc Scenario
 	sc.Start = genStart(t)
@@ -187,6 +201,7 @@ func genHistory(t *rapid.T) Scenario {
 	}
 	sc.Ops = genOps(t, rapid.IntRange(1, world.Scale(14, 40)).Draw(t, "nops"), true, true)
 	sc.EpiExtra = rapid.SampledFrom([]int{0, 0, 1, 7, 100, 100000}).Draw(t, "epiextra")
+	addHuge(t, &sc)
 	return sc
 }
 
@@ -204,6 +219,7 @@ func genStable(t *rapid.T) Scenario {
 	sc.Visible = n
 	sc.Ops = genOps(t, rapid.IntRange(1, world.Scale(12, 30)).Draw(t, "nops"), true, false)
 	sc.EpiExtra = rapid.SampledFrom([]int{0, 1, 100}).Draw(t, "epiextra")
+	addHuge(t, &sc)
 	return sc
 }
 
@@ -304,6 +320,9 @@ func newWorld(sc Scenario) (*wrld, error) {
 			}
 			if len(data) > w.maxTx {
 				w.maxTx = len(data)
+			}
+			if uint64(len(data)) > based.DefaultMaxBlobSize {
+				w.labels["tx-above-the-default-batch-limit"] = true
 			}
 			w.model = append(w.model, mtx{h: sc.Start + uint64(hi), hi: hi, pos: pos, data: data})
 			idx++
